@@ -88,6 +88,8 @@ def show(v):
         return '%s%s' % (show(v[1]), ''.join(show_step(s) for s in v[2]))
     if t == 'ret':
         return '%s()#%d' % (v[1], v[2])
+    if t == 'agg':
+        return '{%s}' % ', '.join('%s: %s' % (''.join(show_step(x) for x in sfx), show(x)) for sfx, x in v[2])
     return '<%s>' % ' '.join(str(x) for x in v)
 
 
@@ -190,7 +192,7 @@ QUIET = ('perror', 'fprintf', 'printf', 'fputs', 'puts', 'syslog', 'strerror', '
 # environment calls whose effect on processes, descriptors or loop objects the model does not follow
 UNMODELLED = ('fork', 'vfork', 'posix_spawn', 'posix_spawnp', 'clone', 'popen', 'system', 'iv_wait_interest_register', 'socketpair', 'dup', 'fcntl',
               'waitpid', 'wait4', 'wait', 'waitid', 'realloc', 'reallocarray', 'iv_task_register', 'iv_fd_register', 'iv_event_register',
-              'iv_signal_register', 'signal', 'sigaction', 'longjmp', 'setjmp', 'pthread_create', 'memcpy', 'memmove', 'creat', 'openat', 'dup2_noerr')
+              'iv_signal_register', 'signal', 'sigaction', 'longjmp', 'setjmp', 'pthread_create', 'creat', 'openat', 'dup2_noerr')
 
 
 class Machine:
@@ -269,6 +271,15 @@ class Machine:
             return I(ord(s[i])) if 0 <= i < len(s) else I(0)
         if b[0] == 'G' and b not in self.ginit:
             self.materialise_global(b)
+        n = len(loc)
+        parts = [(k[n:], v) for k, v in self.mem.items() if len(k) > n and k[:n] == loc]
+        if parts:
+            # a struct / array read as a whole (struct assignment, by-value argument, returned struct): the value is
+            # what the location holds as a whole plus the members written individually
+            return ('agg', self._read_whole(loc), tuple(sorted(parts, key=repr)))
+        return self._read_whole(loc)
+
+    def _read_whole(self, loc):
         if loc in self.mem:
             return self.mem[loc]
         for k in range(len(loc) - 1, 0, -1):
@@ -285,11 +296,20 @@ class Machine:
 
     def write(self, loc, v, srcloc=None, quiet=False):
         self._check_access(loc, srcloc, 'write')
-        for k in [k for k in self.mem if len(k) > len(loc) and k[:len(loc)] == loc]:
-            del self.mem[k]
-        self.mem[loc] = v
+        self.put(loc, v)
         if not quiet and loc[0][0] != 'L':
             self.note('store', show_loc(loc), [v], srcloc, target=loc)
+
+    def put(self, loc, v):
+        """raw store; an aggregate value is laid out member by member"""
+        for k in [k for k in self.mem if len(k) > len(loc) and k[:len(loc)] == loc]:
+            del self.mem[k]
+        if isinstance(v, tuple) and v and v[0] == 'agg':
+            self.mem[loc] = v[1]
+            for sfx, x in v[2]:
+                self.mem[loc + sfx] = x
+        else:
+            self.mem[loc] = v
 
     def materialise_global(self, b):
         """a global that is never written keeps its initialiser (lookup tables)"""
@@ -318,7 +338,7 @@ class Machine:
             for i, x in enumerate(ie.get('elems', [])):
                 self.init_store(loc + (('i', I(i)),), x, fr)
             return
-        self.mem[loc] = self.rvalue(ie, fr)
+        self.put(loc, self.rvalue(ie, fr))
 
     def covered(self, loc):
         """has loc been written (as a whole, as part of an enclosing aggregate, or member by member)?"""
@@ -364,6 +384,16 @@ class Machine:
             return self.lvalue(e['e'], fr)
         raise AnalysisBroken('C19 machine: no location for expression %s' % canon(e))
 
+    def decay(self, loc):
+        """value of an array designator: its address; a char array that holds a string constant as a whole (initialised
+        from a literal, no element written since) is that string"""
+        if loc[0][0] == 'G' and loc[0] not in self.ginit:
+            self.materialise_global(loc[0])
+        v = self.mem.get(loc)
+        if isinstance(v, tuple) and v[0] == 'str' and not any(len(k) > len(loc) and k[:len(loc)] == loc for k in self.mem):
+            return v
+        return ('addr', loc + (('i', I(0)),))
+
     def ptr_add(self, pv, idx):
         if pv[0] == 'addr':
             loc = pv[1]
@@ -408,11 +438,11 @@ class Machine:
                 f = self._resolve(e['name'])
                 return ('fn', f.q if f is not None else e['name'])
             # array (or function) designator in value context: decays to its address
-            return ('addr', self.lvalue(e, fr) + (('i', I(0)),)) if '[' in str(e.get('type', '')) else self.read(self.lvalue(e, fr))
+            return self.decay(self.lvalue(e, fr)) if '[' in str(e.get('type', '')) else self.read(self.lvalue(e, fr))
         if k in ('member', 'index', 'deref'):
             loc = self.lvalue(e, fr)
             if '[' in str(e.get('type', '')):
-                return ('addr', loc + (('i', I(0)),))
+                return self.decay(loc)
             return self.read(loc, e.get('loc'))
         if k == 'addr':
             inner = e['e']
@@ -470,8 +500,9 @@ class Machine:
             return I(e['v']) if 'v' in e else self.fresh('sizeof')
         if k == 'container_of':
             v = self.rvalue(e['e'], fr)
-            if v[0] == 'addr' and v[1] and v[1][-1] == ('f', e['member']):
-                return ('addr', v[1][:-1])
+            steps = tuple(('f', x) for x in str(e['member']).split('.'))       # the member may be a path (kill.timer)
+            if v[0] == 'addr' and len(v[1]) > len(steps) and v[1][-len(steps):] == steps:
+                return ('addr', v[1][:-len(steps)])
             return ('op', 'container_of', v, ('str', '%s.%s' % (e.get('record'), e.get('member'))))
         return self.fresh(k or '?')
 
@@ -504,13 +535,36 @@ class Machine:
             return a
         if op == '+' and a[0] == 'addr' and is_i(b):
             return ('addr', self.ptr_add(a, b))
+        if op == '-' and a[0] == 'addr' and is_i(b):
+            return ('addr', self.ptr_add(a, I(-b[1])))
+        if op == '-' and a[0] == 'addr' and b[0] == 'addr':
+            d = self.elem_distance(a, b)
+            if d is not None:
+                return I(d)
         if op == '+' and is_i(a) and not is_i(b):
             return self.binop('+', b, a)
         return ('op', op, a, b)
 
+    @staticmethod
+    def elem_distance(a, b):
+        """a - b for two addresses of elements of the same array (an object itself counts as element 0 of an array of one)"""
+        def split(v):
+            loc = v[1]
+            if loc and loc[-1][0] == 'i' and is_i(loc[-1][1]):
+                return loc[:-1], loc[-1][1][1]
+            return loc, 0
+        (pa, ia), (pb, ib) = split(a), split(b)
+        if pa == pb:
+            return ia - ib
+        return None
+
     def compare(self, op, a, b):
         """decided comparisons of abstract values, else None"""
         SW = {'<': '>', '>': '<', '<=': '>=', '>=': '<=', '==': '==', '!=': '!='}
+        if a[0] == 'addr' and b[0] == 'addr' and op in ('<', '>', '<=', '>='):
+            d = self.elem_distance(a, b)
+            if d is not None:
+                return {'<': d < 0, '>': d > 0, '<=': d <= 0, '>=': d >= 0}[op]
         if is_i(a) and not is_i(b):
             return self.compare(SW[op], b, a)
         if a == b and a[0] in ('addr', 'fn', 'str', 'fd', 'sym', 'int'):
@@ -602,7 +656,7 @@ class Machine:
         self.cur_fn = f.q
         g = f.pristine()
         for p, a in zip(g.params, args):
-            self.mem[(('L', fr, p['name']),)] = a
+            self.put((('L', fr, p['name']),), a)
         b = g.entry
         rv = None
         try:
@@ -860,6 +914,21 @@ def m_memset(m, name, args, loc):
     return p
 
 
+def m_memcpy(m, name, args, loc):
+    """copy of one object (struct, array) onto another of the same type; the byte count is taken to cover the object"""
+    d, s_ = args[0], args[1]
+    if d[0] != 'addr' or s_[0] not in ('addr', 'str'):
+        raise AnalysisBroken('C19 machine: %s() between %s and %s; the environment model does not cover it' % (name, show(d), show(s_)))
+    def whole(v):
+        l = v[1]
+        return l[:-1] if l and l[-1] == ('i', I(0)) else l
+    if s_[0] == 'str':
+        m.write(whole(d), s_, loc, quiet=True)
+    else:
+        m.write(whole(d), m.read(whole(s_), loc), loc, quiet=True)
+    return d
+
+
 def m_expect(m, name, args, loc):
     return args[0]
 
@@ -967,7 +1036,7 @@ def m_timer_registered(m, name, args, loc):
 MODELLED = {
     'malloc': m_malloc, 'calloc': m_malloc, 'free': m_free,
     'pipe': m_pipe, 'pipe2': m_pipe, 'open': m_open, 'open64': m_open, 'dup2': m_dup2, 'dup3': m_dup2, 'close': m_close,
-    'memset': m_memset, 'bzero': m_memset, '__builtin_expect': m_expect,
+    'memset': m_memset, 'bzero': m_memset, 'memcpy': m_memcpy, 'memmove': m_memcpy, '__builtin_memcpy': m_memcpy, '__builtin_expect': m_expect,
     'strcmp': m_strcmp, 'strncmp': m_strcmp, 'strcasecmp': m_strcmp, 'strlen': m_strlen,
     'iv_wait_interest_register_spawn': m_spawn, 'iv_wait_interest_unregister': m_wait_unregister,
     'iv_wait_interest_kill': m_wait_kill, 'kill': m_raw_kill, 'killpg': m_raw_kill, 'tgkill': m_raw_kill, 'raise': m_raw_kill,
